@@ -739,7 +739,43 @@ class BufInterp(Interp):
         return st
 
     def on_for(self, n, st):
-        raise AnalysisError('for loop in Buffer.%s' % self.fd.name)
+        """for _ in range(E): <body>  -- the body runs E times; if each run moves the cursor by a constant d the loop
+        moves it by d*E, and a raise of one run can occur after an unknown number of runs (same summary as the
+        comprehension form)"""
+        if n.orelse or not (isinstance(n.iter, ast.Call) and isinstance(n.iter.func, ast.Name) and n.iter.func.id == 'range'
+                            and len(n.iter.args) == 1) or any(isinstance(x, (ast.Break, ast.Continue, ast.Return)) for x in ast.walk(n)):
+            raise AnalysisError('for loop in Buffer.%s' % self.fd.name)
+        if not isinstance(n.target, ast.Name) or any(isinstance(x, ast.Name) and x.id == n.target.id and x is not n.target
+                                                     for s_ in n.body for x in ast.walk(s_)):
+            raise AnalysisError('for loop in Buffer.%s uses its counter' % self.fd.name)
+        outs = []
+        for it, s0 in self.ev(n.iter, st):
+            if isinstance(it, Raised):
+                outs.append((('raise', it.exc, it), s0))
+                continue
+            count = it[1] if it[0] == 'rangeof' else None
+            deltas = set()
+            for out, s1 in self.block(n.body, s0.copy()):
+                if out == NEXT:
+                    if s1.cur is TOP or s0.cur is TOP:
+                        deltas.add(None)
+                    else:
+                        d = s1.cur - s0.cur
+                        deltas.add(d.c if d.is_const() else None)
+                elif isinstance(out, tuple) and out and out[0] == 'raise':
+                    s2 = s1.copy()
+                    s2.cur = TOP if s1.cur is TOP or s0.cur is TOP else s0.cur + Aff.sym('k@%d' % n.lineno)
+                    outs.append((out, s2))
+                else:
+                    raise AnalysisError('for loop in Buffer.%s leaves with %s' % (self.fd.name, out))
+            for d in deltas or {0}:
+                s3 = s0.copy()
+                if d is None or count is None:
+                    s3.cur = TOP
+                else:
+                    s3.cur = s0.cur + count.scale(d)
+                outs.append((NEXT, s3))
+        return outs
 
     def on_nested_def(self, n, st):
         return [(NEXT, st)]
